@@ -115,8 +115,12 @@ def observe(root, probes):
                                         verify_openpgp=False)
             e = m.find_path_entry(f)
             v = None if e is None else adapt.norm_gemato(e)
-            if v is not None and v[0] == 'MANIFEST':
-                v = ('MANIFEST', norm_path(v[1]))
+            if v is not None and (v[0] == 'MANIFEST' or (
+                    len(v) > 2 and os.path.basename(v[1]).startswith('Manifest')
+                    and logical(os.path.basename(v[1])) == logical(os.path.basename(f)))):
+                # the entry for a Manifest file (whatever its tag) necessarily
+                # carries the size / digests of that rendering
+                v = (v[0], norm_path(v[1]))
             out['entry:' + f] = v
         except Exception as exc:
             out['entry:' + f] = ('exc', type(exc).__name__)
@@ -312,7 +316,7 @@ def run_unit(u, ctx):
                 case, layout, info = scenario.build(
                     rng, root, ['content', 'size', 'delete', 'stray', 'm-digest',
                                 'm-drop', 'm-ghost', 'm-compatible-dup',
-                                'm-dup-manifest-entry'], nmut,
+                                'm-dup-manifest-entry', 'm-manifest-data-twin'], nmut,
                     {'p_split': 0.1, 'specials': False, 'p_mandir': 0.6,
                      'hostile': rng.choice([0, 0.3, 0.8])})
             except RuntimeError as exc:
@@ -334,8 +338,10 @@ def run_unit(u, ctx):
                           for m, md in layout['mans'].items()
                           for e in md['entries'] if e['tag'] == 'DIST'][:2]}
             judge_meta(ctx, d, case, case['skel'], layout, list(case['ops']))
-            # ---- watermark half on the unmutated rendering
-            if nmut == 0:
+            # ---- watermark half on renderings that still verify (no mutation, or only
+            # duplicate entries that agree)
+            benign = ('m-compatible-dup', 'm-dup-manifest-entry', 'm-manifest-data-twin')
+            if all(r.get('class') in benign for r in case['mutations']):
                 saves = []
                 for _ in range(rng.randint(2, 4)):
                     wk = rng.random()
@@ -348,6 +354,13 @@ def run_unit(u, ctx):
                     saves.append({'w': w, 'fmt': rng.choice(['gz', 'bz2', 'lzma', 'xz']),
                                   'force': rng.random() < 0.6,
                                   'dirty': rng.random() < 0.6})
+                if any(r.get('class') in ('m-dup-manifest-entry', 'm-manifest-data-twin')
+                       for r in case['mutations']):
+                    # two entries for one path in one Manifest: an *update* would run
+                    # into the known same-Manifest-duplicate finding of C03 (D20);
+                    # here only the save / re-compression path is under test
+                    for st in saves:
+                        st['dirty'] = False
                 case['saves'] = saves
                 case['one_loader'] = rng.random() < 0.5
                 # (the ebuild profile would want Manifests of its own in some
